@@ -16,7 +16,7 @@ import numpy as np
 from harness import common as C
 
 HEADER = """From Coq Require Import List ZArith QArith Bool. Import ListNotations.
-From TLV Require Import Base.Shape Base.PyList Base.Tensor Base.Ops Model.Nonneg Model.NonnegSign Model.NonnegOptions Corr.C10.
+From TLV Require Import Base.Shape Base.PyList Base.Tensor Base.Ops Model.Nonneg Model.NonnegSign Model.NonnegFlow Model.NonnegOptions Corr.C10.
 Local Open Scope nat_scope."""
 EPD = "tensorly.decomposition."
 ENTRY = {"nn_cp_mu": EPD + "non_negative_parafac", "nn_cp_hals": EPD + "non_negative_parafac_hals",
@@ -1347,8 +1347,10 @@ def run_correspondence(chk, rng):
     groups += corr_initialisers(rng, chk.tier)
     groups += corr_ccp(rng, chk.tier)
     groups += corr_parafac2_iter(rng, chk.tier)
+    groups += corr_parafac2_run(rng, chk.tier)
     groups += corr_line(rng, chk.tier, chk)
     groups += corr_sign(chk)
+    groups += corr_flow(chk)
     # interleave the groups so that every shard gets a mix of cheap and expensive cases
     nsh = max(1, -(-len(groups) // (9 if chk.tier == "quick" else 15)))
     groups = [g for k in range(nsh) for g in groups[k::nsh]]
@@ -1592,4 +1594,116 @@ def corr_sign(chk):
         out.append((op, Fraction(0), [0.0], [], {"corr": f"corr:C10-static {fname}", "file": rel, "function": fname, "assumed_true": list(assume), "assumed_false": list(assume_f),
                                                  "parameter_signs": signs, "statements": r["n_stmts"], "variables": r["n_vars"]}))
     chk.cov["static_sign_analysis"] = info
+    return out
+
+
+# ============================================================================= round 6: corr:C10-flow -- flow-sensitive analysis of structured bodies (closures / callees / methods inlined)
+_P2_TRUE = ("nn_modes is not None and isinstance(init, str)", "mode in nn_modes_init", "self.nn_modes", "self.nn_modes == 'all'", "mode in nn_modes")
+_P2_FALSE = ("nn_modes is None", "isinstance(init, (tuple, list, Parafac2Tensor, CPTensor))")
+_P2_CALLEES = {"initialize_decomposition": ("decomposition/_parafac2.py", "initialize_decomposition", None),
+               "line_step": ("decomposition/_parafac2.py", "line_step", "_BroThesisLineSearch"),
+               "non_negative_parafac_hals": ("decomposition/_nn_cp.py", "non_negative_parafac_hals", None)}
+_CC_CALLEES = {"initialize_constrained_parafac": ("decomposition/_constrained_cp.py", "initialize_constrained_parafac", None),
+               "admm": ("solvers/admm.py", "admm", None), "proximal_operator": ("tenalg/proximal.py", "proximal_operator", None)}
+FLOW_TARGETS = [
+    # (label, file, function, parameter signs, tests taken as true, as false, callees to inline[, split])
+    ("active_set_nnls (x >= 0)", "solvers/nnls.py", "active_set_nnls", {"x": "SgNN"}, (), (), {}),
+    ("initialize_tucker (non_negative=True, any init incl. a signed user start)", "decomposition/_tucker.py", "initialize_tucker", {}, ("non_negative is True",), (), {}),
+    ("parafac2 (nn_modes='all', built-in init, default line search)", "decomposition/_parafac2.py", "parafac2", {}, _P2_TRUE, _P2_FALSE, _P2_CALLEES),
+    ("parafac2 (nn_modes='all', built-in init, linesearch=False)", "decomposition/_parafac2.py", "parafac2", {},
+     _P2_TRUE[:2] + _P2_TRUE[4:], _P2_FALSE + ("line_iter", "linesearch and iteration % 2 == 0 and (iteration > 5)"), _P2_CALLEES),
+    ("constrained_parafac (non_negative=True, any built-in or entrywise non-negative user init)", "decomposition/_constrained_cp.py", "constrained_parafac",
+     {"init": "SgNN"}, ("constraint == 'non_negative'",), ("n_const is None", "constraint is None"), _CC_CALLEES),
+    # ANY nn_modes ('all', None, a list): `factors` is split into the arrays of the declared modes (guard `mode in nn_modes`) and the others; the verdict is
+    # about the weights and the declared factors; cp_normalize is used through its declared-modes contract (c_cpnorm_D)
+    ("non_negative_parafac_hals (any nn_modes: weights and the factors of the declared modes)", "decomposition/_nn_cp.py", "non_negative_parafac_hals",
+     {"init": "SgNN"}, (), (), {}, {"factors": "mode in nn_modes"}),
+    # the six bodies of corr:C10-static once more, structured (strong updates make the analysis independent of variable re-use)
+    ("non_negative_parafac", "decomposition/_nn_cp.py", "non_negative_parafac", {"init": "SgNN"}, (), (), {}),
+    ("non_negative_parafac_hals (nn_modes='all')", "decomposition/_nn_cp.py", "non_negative_parafac_hals", {"init": "SgNN"}, ("mode in nn_modes",), (), {}),
+    ("non_negative_tucker", "decomposition/_tucker.py", "non_negative_tucker", {}, (), (), {}),
+    ("non_negative_tucker_hals", "decomposition/_tucker.py", "non_negative_tucker_hals", {}, (), (), {}),
+]
+
+
+def corr_flow(chk):
+    """structured bodies regenerated from the CURRENT source (FlowTranslator of harness/props/C10_sign.py); Coq evaluates the flow-sensitive analysis of
+    Model/NonnegFlow.v (sound by C10_flow_analysis_sound): verdict 0 = every value the function can return is entrywise >= 0.  Fail closed."""
+    from harness.props import C10_sign as S
+    out, info = [], {}
+    def src(rel):
+        return open(os.path.join(C.REPO, "tensorly", rel)).read()
+    for label, rel, fname, signs, assume, assume_f, callees, *rest in FLOW_TARGETS:
+        split = rest[0] if rest else None
+        try:
+            with warnings.catch_warnings():
+                warnings.simplefilter("ignore")
+                r = S.translate_flow(src(rel), fname, signs, assume, assume_f, {k: (src(v[0]), v[1], v[2]) for k, v in callees.items()}, split=split)
+        except (S.Untranslatable, SyntaxError, OSError, IndexError, KeyError) as e:
+            chk.broken.append({"what": f"corr:C10-flow: {label} ({rel}) cannot be translated into the structured sign-analysis language (broken tie)",
+                               "detail": f"{type(e).__name__}: {e}"[:300]})
+            continue
+        info[label] = {k: r[k] for k in ("n_stmts", "n_vars", "n_inlined")}
+        op = f"(OFlow {r['prog']} {r['a0']})"
+        out.append((op, Fraction(0), [0.0], [], {"corr": f"corr:C10-static (flow) {label}", "file": rel, "function": fname, "assumed_true": list(assume),
+                                                 "assumed_false": list(assume_f), "inlined": sorted(callees), "parameter_signs": signs,
+                                                 "statements": r["n_stmts"], "variables": r["n_vars"]}))
+    chk.cov["flow_sign_analysis"] = info
+    return out
+
+
+# ============================================================================= round 6: complete parafac2 runs of several outer iterations, line search inside the loop
+def corr_parafac2_run(rng, tier):
+    """parafac2(nn_modes='all', init=(weights, factors, projections), tol=0, n_iter_max=n) with n in 2..9, with and without the line search: the projected
+    tensor of every outer iteration (SVD oracle) is recorded by interposing _project_tensor_slices, the jump and the acceptance of every line-search
+    iteration by interposing _BroThesisLineSearch.line_step (harness-level, /repo untouched); the model replays the whole run (Corr.C10.p2run_fx).
+    Tiny shapes and rank 1-2: a rank-1 inner HALS call stops after 2 sweeps, which keeps a 9-iteration run cheap."""
+    import sys as _sys
+    from tensorly.decomposition import parafac2
+    from tensorly.decomposition import _parafac2 as P2
+    out = []
+    nrun = 3 if tier == "quick" else 14
+    for k in range(nrun):
+        I, J, K = rng.randint(2, 3), rng.randint(2, 3), rng.randint(2, 3)
+        ls = (k % 3 == 0)
+        R = 1 if (tier == "quick" or ls or rng.random() < 0.6) else 2       # rank 2: every inner HALS call runs its 100 sweeps (kept to short runs)
+        n = rng.choice([7, 9]) if ls else (rng.choice([2, 3, 4]) if R == 1 else 2)
+        slices = [np.array([[rng.gauss(0, 1) for _ in range(K)] for _ in range(J)]) for _ in range(I)]
+        if rng.random() < 0.3:
+            slices = [np.abs(s_) for s_ in slices]
+        Fs = [np.array([[rng.random() + 0.1 for _ in range(R)] for _ in range(d)]) for d in (I, R, K)]
+        w = np.ones(R) if rng.random() < 0.5 else np.array([rng.choice([0.5, 2.0, 1.5]) for _ in range(R)])
+        projs = [np.linalg.qr(np.array([[rng.gauss(0, 1) for _ in range(R)] for _ in range(J)]))[0] for _ in range(I)]
+        nm = rng.random() < 0.3
+        nip = 1 if (tier == "quick" or R > 1) else rng.choice([1, 2])
+        Ts, steps = [], {}
+        orig_proj, orig_step = P2._project_tensor_slices, P2._BroThesisLineSearch.line_step
+        def rec_proj(tensor_slices, projections):
+            r_ = orig_proj(tensor_slices, projections)
+            if _sys._getframe(1).f_code.co_name == "parafac2":
+                Ts.append(np.array(r_, copy=True))
+            return r_
+        def rec_step(self, iteration, tensor_slices, factors_last, weights, factors, projections, rec_error):
+            jump = iteration ** (1.0 / self.acc_pow)
+            r_ = orig_step(self, iteration, tensor_slices, factors_last, weights, factors, projections, rec_error)
+            steps[iteration] = (jump, r_[0] is not factors)
+            return r_
+        P2._project_tensor_slices, P2._BroThesisLineSearch.line_step = rec_proj, rec_step
+        try:
+            st, r = quiet_call(lambda: parafac2([s_.copy() for s_ in slices], R, n_iter_max=n, init=(w.copy(), [f.copy() for f in Fs], [p.copy() for p in projs]),
+                                                nn_modes="all", linesearch=ls, normalize_factors=nm, n_iter_parafac=nip, tol=0), timeout=120)
+        finally:
+            P2._project_tensor_slices, P2._BroThesisLineSearch.line_step = orig_proj, orig_step
+        if st != "ok" or not finite_all(r[0], *r[1]) or len(Ts) != n:
+            continue
+        lines = [steps[i][0] if i in steps else None for i in range(n)]
+        accepts = [bool(steps[i][1]) if i in steps else False for i in range(n)]
+        Ts_lit = "[" + "; ".join(C.qtensor(T_.shape, [float(x) for x in T_.reshape(-1)]) for T_ in Ts) + "]"
+        op = (f"(OP2Run {Ts_lit} {qvec_lit(w)} {qmats_lit(Fs)} {nip}%nat {C.boolc(nm)} {C.q(1e-8)} {opt_list_lit(lines)} "
+              f"[{'; '.join(C.boolc(a) for a in accepts)}])")
+        scale = max(1.0, max(float(np.abs(f).max()) for f in r[1]), float(np.abs(r[0]).max()))
+        out.append((op, Fraction(scale) / 10 ** 7, r[0], list(r[1]),
+                    {"corr": "parafac2 complete run (several outer iterations" + (", line search inside the loop)" if ls else ")"), "slices": slices, "weights": w,
+                     "factors": Fs, "normalize": nm, "n_iter_parafac": nip, "n": n, "linesearch": ls,
+                     "line_search_iterations": sorted(steps), "accepted": [i for i in sorted(steps) if steps[i][1]]}))
     return out
